@@ -10,6 +10,18 @@
 //   cell executed many times under ASan/LSan.  Expected outcome: success iff fn threw a type that is-a E (explicit
 //   parent table, cross-checked at start-up against real catch clauses), otherwise failure with expectation_failed.
 //
+// Part "shapes" (operand-SHAPE cells): every relation macro with the first or the second operand written as an
+//   UNPARENTHESISED expression of each precedence class (ternary with constant / variable arms, |, &, ^, &&, ||, ==, <,
+//   shift, additive, multiplicative, unary -, !, ~, cast, call).  The truth is computed from the explicitly
+//   parenthesised value `(EXPR)` evaluated in a separate statement, so a macro that forgets the parentheses around one
+//   of its parameters evaluates a different relation and is caught.
+// Call CONTEXTS: every cell of every part is executed in five contexts, rotating per repetition — direct; inside a
+//   catch handler of an unrelated exception; inside a destructor on normal scope exit; inside a destructor that runs
+//   while an unrelated exception unwinds the stack (the expectation failure is caught locally inside the destructor, so
+//   nothing escapes it: well defined); on a second thread started from such an unwinding destructor.  The verdict,
+//   file, line, message and what() must be the same as in the direct context.
+// errno is poisoned (vf::poison_errno) immediately before every call into phosg.
+//
 // Not read: expectation_failed::msg of expect_raises failures (for wrong-type failures it points into a destroyed
 // local std::string — an observation outside the statement); what() is read instead.
 #include <float.h>
@@ -17,9 +29,11 @@
 #include <math.h>
 
 #include <functional>
+#include <map>
 #include <new>
 #include <stdexcept>
 #include <string>
+#include <thread>
 #include <vector>
 
 #include "JSON.hh"
@@ -54,6 +68,77 @@ static void capture(Outcome& o, const phosg::expectation_failed& e, bool read_ms
   catch (const phosg::expectation_failed& e) { capture(o, e, read_msg); } \
   catch (const std::exception& e) { o.threw_other = true; o.other = string("std::exception: ") + e.what(); } \
   catch (...) { o.threw_other = true; o.other = "non-std::exception object"; }
+
+// ---- call contexts ---------------------------------------------------------------------------------------
+enum Context { CX_DIRECT, CX_HANDLER, CX_DTOR_NORMAL, CX_UNWINDING, CX_THREAD, NCTX };
+static const char* CTX_NAME[NCTX] = {"direct", "catch-handler", "dtor-normal-exit", "dtor-unwinding", "thread-during-unwinding"};
+// rotation per repetition: the thread context (expensive) once in eight
+static const Context CTX_SCHED[8] = {CX_DIRECT, CX_UNWINDING, CX_HANDLER, CX_DTOR_NORMAL, CX_UNWINDING, CX_DIRECT, CX_THREAD, CX_HANDLER};
+
+struct UnrelatedObject {  // an unrelated exception that is not a std::exception
+  int code;
+};
+
+// Runs f() from its destructor.  f catches everything itself (CATCH_INTO), so nothing ever escapes the destructor.
+template <typename F>
+struct RunInDtor {
+  F& f;
+  Outcome& out;
+  bool on_thread;
+  ~RunInDtor() {
+    if (on_thread) {
+      std::thread t([this]() {
+        vf::poison_errno();
+        out = f();
+      });
+      t.join();
+    } else {
+      vf::poison_errno();
+      out = f();
+    }
+  }
+};
+
+static uint64_t ctx_counter = 0;
+
+template <typename F>
+static Outcome in_context(Context cx, F f) {
+  Outcome out;
+  bool std_flavour = (ctx_counter++ & 1) != 0;  // alternate the type of the unrelated exception
+  switch (cx) {
+    case CX_DIRECT:
+      vf::poison_errno();
+      return f();
+    case CX_HANDLER:
+      try {
+        if (std_flavour) throw std::runtime_error("unrelated exception");
+        throw UnrelatedObject{7};
+      } catch (const std::runtime_error&) {
+        vf::poison_errno();
+        out = f();
+      } catch (const UnrelatedObject&) {
+        vf::poison_errno();
+        out = f();
+      }
+      return out;
+    case CX_DTOR_NORMAL: {
+      RunInDtor<F> g{f, out, false};
+    }
+      return out;
+    case CX_UNWINDING:
+    case CX_THREAD:
+      try {
+        RunInDtor<F> g{f, out, cx == CX_THREAD};
+        if (std_flavour) throw std::logic_error("unrelated exception");
+        throw UnrelatedObject{9};
+      } catch (const std::logic_error&) {
+      } catch (const UnrelatedObject&) {
+      }
+      return out;
+    default:
+      return out;
+  }
+}
 
 // One function per relation; the whole body is on the line of the DEF_REL use, so __LINE__ inside the phosg macro
 // and in `site_line = __LINE__` agree, and every relation has its own line.
@@ -114,32 +199,70 @@ struct Operand {
 };
 
 // Judge one executed call against the expectation.
-static void judge(const string& opname, const string& tname, bool should_pass, const Outcome& o, const string& kase,
+// Direct-context outcomes of the current cell, by call-site line: every other context must reproduce them exactly.
+static map<uint64_t, Outcome> cell_direct;
+// Set when the direct context of the current cell already got a wrong verdict: the defect is then not context-dependent
+// and the other contexts report it under the same (direct) key instead of adding context:* keys.
+static bool cell_direct_bad = false;
+static void new_cell() {
+  cell_direct.clear();
+  cell_direct_bad = false;
+}
+
+// Violation key: in the direct context it names macro and operand type / shape; in the other contexts it names the
+// context and the kind of wrong verdict only (macro and operands are in the case text), so that one context-dependent
+// defect yields a handful of keys.
+static string vkey(Context cx, const string& opname, const string& tname, const char* kind) {
+  if (cx == CX_DIRECT) cell_direct_bad = true;
+  else if (cell_direct_bad) cx = CX_DIRECT;
+  if (cx == CX_DIRECT && tname.compare(0, 14, "operand-shape:") == 0) return fmt("%s:%s", tname.c_str(), kind);  // macro name is in the case text
+  if (cx == CX_DIRECT) return tname.empty() ? fmt("%s:%s", opname.c_str(), kind) : fmt("%s:%s:%s", opname.c_str(), tname.c_str(), kind);
+  return fmt("context:%s:%s:%s", CTX_NAME[cx], opname.compare(0, 13, "expect_raises") == 0 ? "expect_raises" : "relation", kind);
+}
+
+static void compare_with_direct(Context cx, const Outcome& o, const string& kase, bool compare_msg) {
+  if (cx == CX_DIRECT) {
+    cell_direct[o.site_line] = o;
+    return;
+  }
+  auto it = cell_direct.find(o.site_line);
+  if (it == cell_direct.end()) return;
+  const Outcome& d = it->second;
+  if (o.threw_ef != d.threw_ef || o.threw_other != d.threw_other || o.file != d.file || o.line != d.line || (compare_msg && o.msg != d.msg) || o.what != d.what)
+    C->violation(fmt("context:%s:differs-from-direct", CTX_NAME[cx]),
+        fmt("same call, same operands: direct context %s (\"%s\"), this context %s (\"%s\")", d.threw_ef ? "threw expectation_failed" : d.threw_other ? "threw something else" : "returned",
+            d.what.c_str(), o.threw_ef ? "threw expectation_failed" : o.threw_other ? "threw something else" : "returned", o.what.c_str()),
+        kase);
+}
+
+static void judge(Context cx, const string& opname, const string& tname, bool should_pass, const Outcome& o, const string& kase0,
     const char* must_contain1, const char* must_contain2, const char* exact_msg) {
   C->evaluations++;
+  string kase = cx == CX_DIRECT ? kase0 : kase0 + " [called " + CTX_NAME[cx] + "]";
+  compare_with_direct(cx, o, kase, true);
   if (o.threw_other) {
-    C->violation(fmt("%s:%s:wrong-exception", opname.c_str(), tname.c_str()), "something other than expectation_failed escaped: " + o.other, kase);
+    C->violation(vkey(cx, opname, tname, "wrong-exception"), "something other than expectation_failed escaped: " + o.other, kase);
     return;
   }
   if (should_pass) {
-    if (o.threw_ef) C->violation(fmt("%s:%s:spurious-failure", opname.c_str(), tname.c_str()), "relation is true but expectation_failed was thrown: " + o.what, kase);
+    if (o.threw_ef) C->violation(vkey(cx, opname, tname, "spurious-failure"), "relation is true but expectation_failed was thrown: " + o.what, kase);
     return;
   }
   if (!o.threw_ef) {
-    C->violation(fmt("%s:%s:missing-failure", opname.c_str(), tname.c_str()), "relation is false but nothing was thrown", kase);
+    C->violation(vkey(cx, opname, tname, "missing-failure"), "relation is false but nothing was thrown", kase);
     return;
   }
   if (o.file != __FILE__)
-    C->violation(fmt("%s:site:file", opname.c_str()), fmt("failure carries file \"%s\", call site is \"%s\"", o.file.c_str(), __FILE__), kase);
+    C->violation(vkey(cx, opname, "", "site:file"), fmt("failure carries file \"%s\", call site is \"%s\"", o.file.c_str(), __FILE__), kase);
   if (o.line != o.site_line)
-    C->violation(fmt("%s:site:line", opname.c_str()), fmt("failure carries line %" PRIu64 ", call site is line %" PRIu64, o.line, o.site_line), kase);
+    C->violation(vkey(cx, opname, "", "site:line"), fmt("failure carries line %" PRIu64 ", call site is line %" PRIu64, o.line, o.site_line), kase);
   if (exact_msg) {
-    if (o.msg != exact_msg) C->violation(fmt("%s:site:message", opname.c_str()), fmt("failure carries message \"%s\", given \"%s\"", o.msg.c_str(), exact_msg), kase);
+    if (o.msg != exact_msg) C->violation(vkey(cx, opname, "", "site:message"), fmt("failure carries message \"%s\", given \"%s\"", o.msg.c_str(), exact_msg), kase);
   } else {
     size_t p1 = must_contain1 ? o.msg.find(must_contain1) : 0;
     size_t p2 = must_contain2 ? o.msg.find(must_contain2, p1 == string::npos ? 0 : p1) : 0;
     if (p1 == string::npos || p2 == string::npos)
-      C->violation(fmt("%s:site:message", opname.c_str()), fmt("failure message \"%s\" does not name the call site's operand expressions", o.msg.c_str()), kase);
+      C->violation(vkey(cx, opname, "", "site:message"), fmt("failure message \"%s\" does not name the call site's operand expressions", o.msg.c_str()), kase);
   }
   // what() is what a generic handler prints.  The statement only requires the exception to carry file, line and
   // message (the fields judged above), so a what() that lacks one of them is counted as an observation, not a verdict.
@@ -158,17 +281,21 @@ static void relation_table(const char* tname, const vector<Operand<T>>& ops) {
         bool t = truth((Rel)r, a.rk, b.rk, a.nan || b.nan);
         string kase = fmt("expect_%s(%s, %s) [%s]", REL_NAME[r], a.label, b.label, tname);
         C->crumb_s(kase);
+        new_cell();
         for (int rep = 0; rep < REPS; rep++) {
-          Outcome o;
-          switch (r) {
-            case EQ: o = rel_eq<T>(a.v, b.v); break;
-            case NE: o = rel_ne<T>(a.v, b.v); break;
-            case GT: o = rel_gt<T>(a.v, b.v); break;
-            case GE: o = rel_ge<T>(a.v, b.v); break;
-            case LT: o = rel_lt<T>(a.v, b.v); break;
-            case LE: o = rel_le<T>(a.v, b.v); break;
-          }
-          judge(string("expect_") + REL_NAME[r], tname, t, o, kase, "lhs_operand", "rhs_operand", nullptr);
+          Context cx = CTX_SCHED[rep % 8];
+          Outcome o = in_context(cx, [&]() -> Outcome {
+            switch (r) {
+              case EQ: return rel_eq<T>(a.v, b.v);
+              case NE: return rel_ne<T>(a.v, b.v);
+              case GT: return rel_gt<T>(a.v, b.v);
+              case GE: return rel_ge<T>(a.v, b.v);
+              case LT: return rel_lt<T>(a.v, b.v);
+              default: return rel_le<T>(a.v, b.v);
+            }
+          });
+          judge(cx, string("expect_") + REL_NAME[r], tname, t, o, kase, "lhs_operand", "rhs_operand", nullptr);
+          C->cls(fmt("ctx:%s:relation:%s", CTX_NAME[cx], t ? "holds" : "fails"));
         }
         const char* shape = (a.nan || b.nan) ? "unordered" : a.rk == b.rk ? "equal" : a.rk < b.rk ? "less" : "greater";
         C->cls(fmt("rel:%s:%s:%s:%s", REL_NAME[r], tname, shape, t ? "holds" : "fails"));
@@ -192,14 +319,22 @@ static void relations_suite() {
     if (!C->mine(cell_idx++)) continue;
     string kase = fmt("expect(%s)", v ? "true" : "false");
     C->crumb_s(kase);
-    for (int rep = 0; rep < REPS; rep++) judge("expect", "bool", v != 0, rel_expect(v != 0), kase, "pred_value", nullptr, nullptr);
+    new_cell();
+    for (int rep = 0; rep < REPS; rep++) {
+      Context cx = CTX_SCHED[rep % 8];
+      judge(cx, "expect", "bool", v != 0, in_context(cx, [&]() { return rel_expect(v != 0); }), kase, "pred_value", nullptr, nullptr);
+    }
     C->cls(fmt("rel:expect:bool:%s", v ? "holds" : "fails"));
   }
   for (int v = 0; v < 2; v++) {
     if (!C->mine(cell_idx++)) continue;
     string kase = fmt("expect(pointer != nullptr) with pointer %s", v ? "non-null" : "null");
     C->crumb_s(kase);
-    for (int rep = 0; rep < REPS; rep++) judge("expect", "pointer", v != 0, rel_expect_ptr(v ? (const void*)&cell_idx : nullptr), kase, "pointer_value", nullptr, nullptr);
+    new_cell();
+    for (int rep = 0; rep < REPS; rep++) {
+      Context cx = CTX_SCHED[rep % 8];
+      judge(cx, "expect", "pointer", v != 0, in_context(cx, [&]() { return rel_expect_ptr(v ? (const void*)&cell_idx : nullptr); }), kase, "pointer_value", nullptr, nullptr);
+    }
     C->cls(fmt("rel:expect:pointer:%s", v ? "holds" : "fails"));
   }
   // expect_msg(pred, text): the message is the caller's text
@@ -209,16 +344,134 @@ static void relations_suite() {
       if (!C->mine(cell_idx++)) continue;
       string kase = fmt("expect_msg(%s, \"%s\")", v ? "true" : "false", MSGS[m]);
       C->crumb_s(kase);
+      new_cell();
       for (int rep = 0; rep < REPS; rep++) {
+        Context cx = CTX_SCHED[rep % 8];
         // the text lives in a heap string that is still alive when the failure is inspected
         string heap_text(MSGS[m]);
-        Outcome o;
-        try { o.site_line = __LINE__; expect_msg(v != 0, heap_text.c_str()); } CATCH_INTO(o, true)
-        judge("expect_msg", "bool", v != 0, o, kase, nullptr, nullptr, MSGS[m]);
-        judge("expect_msg", "bool", v != 0, rel_expect_msg(v != 0, MSGS[m]), kase, nullptr, nullptr, MSGS[m]);
+        Outcome o = in_context(cx, [&]() {
+          Outcome o2;
+          try { o2.site_line = __LINE__; expect_msg(v != 0, heap_text.c_str()); } CATCH_INTO(o2, true)
+          return o2;
+        });
+        judge(cx, "expect_msg", "bool", v != 0, o, kase, nullptr, nullptr, MSGS[m]);
+        judge(cx, "expect_msg", "bool", v != 0, in_context(cx, [&]() { return rel_expect_msg(v != 0, MSGS[m]); }), kase, nullptr, nullptr, MSGS[m]);
       }
       C->cls(fmt("rel:expect_msg:%s:%s", m == 1 ? "empty-text" : m == 2 ? "format-chars" : "text", v ? "holds" : "fails"));
     }
+}
+
+// --------------------------------------------------------------------------------------------------------
+// operand-SHAPE cells
+
+static int twice(int x) { return 2 * x; }
+
+#define SHAPE_SITE(MACRO, A, B) try { o.site_line = __LINE__; MACRO(A, B); } CATCH_INTO(o, true) break;
+
+// For shape NAME written as the unparenthesised token sequence EXPR (over the runtime values sa, sb, sc, sp, sq):
+//   shape_value_NAME  = the value of the explicitly parenthesised (EXPR), computed in its own statement;
+//   shape_call_NAME   = twelve call sites, relation x {EXPR as first operand, EXPR as second operand}, the other
+//                       operand being the plain variable kv.  All twelve are on the line of the DEF_SHAPE use.
+#define DEF_SHAPE(NAME, EXPR)                                                                              \
+  static long long shape_value_##NAME(int sa, int sb, int sc, bool sp, bool sq) {                         \
+    (void)sa; (void)sb; (void)sc; (void)sp; (void)sq;                                                     \
+    long long value_of_parenthesised_expression = (EXPR);                                                 \
+    return value_of_parenthesised_expression;                                                             \
+  }                                                                                                        \
+  static Outcome shape_call_##NAME(int rel, int pos, int kv, int sa, int sb, int sc, bool sp, bool sq) {  \
+    (void)sa; (void)sb; (void)sc; (void)sp; (void)sq;                                                     \
+    Outcome o;                                                                                             \
+    switch (rel * 2 + pos) {                                                                               \
+      case 0: SHAPE_SITE(expect_eq, EXPR, kv)                                                              \
+      case 1: SHAPE_SITE(expect_eq, kv, EXPR)                                                              \
+      case 2: SHAPE_SITE(expect_ne, EXPR, kv)                                                              \
+      case 3: SHAPE_SITE(expect_ne, kv, EXPR)                                                              \
+      case 4: SHAPE_SITE(expect_gt, EXPR, kv)                                                              \
+      case 5: SHAPE_SITE(expect_gt, kv, EXPR)                                                              \
+      case 6: SHAPE_SITE(expect_ge, EXPR, kv)                                                              \
+      case 7: SHAPE_SITE(expect_ge, kv, EXPR)                                                              \
+      case 8: SHAPE_SITE(expect_lt, EXPR, kv)                                                              \
+      case 9: SHAPE_SITE(expect_lt, kv, EXPR)                                                              \
+      case 10: SHAPE_SITE(expect_le, EXPR, kv)                                                             \
+      case 11: SHAPE_SITE(expect_le, kv, EXPR)                                                             \
+    }                                                                                                      \
+    return o;                                                                                              \
+  }                                                                                                        \
+  static const char* shape_text_##NAME = #EXPR;
+
+DEF_SHAPE(ternary_const_arms, sc ? 1 : 2)
+DEF_SHAPE(ternary_var_arms, sc ? sa : sb)
+DEF_SHAPE(ternary_bool_cond, sp ? sb : sa)
+DEF_SHAPE(bit_or, sa | sb)
+DEF_SHAPE(bit_and, sa & sb)
+DEF_SHAPE(bit_xor, sa ^ sb)
+DEF_SHAPE(logical_and, sp && sq)
+DEF_SHAPE(logical_or, sp || sq)
+DEF_SHAPE(equality, sa == sc)
+DEF_SHAPE(inequality, sa != sc)
+DEF_SHAPE(relational_lt, sa < sb)
+DEF_SHAPE(relational_ge, sa >= sb)
+DEF_SHAPE(shift, sa << 1)
+DEF_SHAPE(additive, sa + sb)
+DEF_SHAPE(subtractive, sa - sb)
+DEF_SHAPE(multiplicative, sa * sb - sc)
+DEF_SHAPE(modulo, sb % 3)
+DEF_SHAPE(unary_minus, -sa)
+DEF_SHAPE(logical_not, !sp)
+DEF_SHAPE(bit_not, ~sa)
+DEF_SHAPE(cast, (long)sa)
+DEF_SHAPE(call, twice(sa))
+
+struct ShapeDef {
+  const char* name;
+  const char* const* text;
+  long long (*value)(int, int, int, bool, bool);
+  Outcome (*call)(int, int, int, int, int, int, bool, bool);
+};
+#define SHAPE_ENTRY(NAME) {#NAME, &shape_text_##NAME, shape_value_##NAME, shape_call_##NAME}
+static const ShapeDef SHAPES[] = {SHAPE_ENTRY(ternary_const_arms), SHAPE_ENTRY(ternary_var_arms), SHAPE_ENTRY(ternary_bool_cond), SHAPE_ENTRY(bit_or), SHAPE_ENTRY(bit_and),
+    SHAPE_ENTRY(bit_xor), SHAPE_ENTRY(logical_and), SHAPE_ENTRY(logical_or), SHAPE_ENTRY(equality), SHAPE_ENTRY(inequality), SHAPE_ENTRY(relational_lt),
+    SHAPE_ENTRY(relational_ge), SHAPE_ENTRY(shift), SHAPE_ENTRY(additive), SHAPE_ENTRY(subtractive), SHAPE_ENTRY(multiplicative), SHAPE_ENTRY(modulo),
+    SHAPE_ENTRY(unary_minus), SHAPE_ENTRY(logical_not), SHAPE_ENTRY(bit_not), SHAPE_ENTRY(cast), SHAPE_ENTRY(call)};
+
+static void shapes_suite() {
+  const int shape_reps = REPS >= 400 ? 16 : 2;
+  static const int SA[] = {0, 3, 6}, SB[] = {0, 5}, SC[] = {0, 1, 2};
+  for (const ShapeDef& sh : SHAPES)
+    for (int r = 0; r < NREL; r++)
+      for (int pos = 0; pos < 2; pos++) {
+        if (!C->mine(cell_idx++)) continue;
+        const char* posname = pos == 0 ? "first" : "second";
+        uint64_t holds = 0, fails = 0, n = 0;
+        for (int rep = 0; rep < shape_reps; rep++) {
+          int i = 0;
+          for (int sc : SC)
+            for (int sb : SB)
+              for (int sa : SA) {
+                bool sp = (i & 1) != 0, sq = (i & 2) != 0;
+                i++;
+                long long v = sh.value(sa, sb, sc, sp, sq);
+                for (int kv : {(int)v - 1, (int)v, (int)v + 1, 0, 1, 2}) {
+                  // the stated relation: pos 0 = (EXPR) REL kv, pos 1 = kv REL (EXPR)
+                  bool t = pos == 0 ? truth((Rel)r, (int)v, kv, false) : truth((Rel)r, kv, (int)v, false);
+                  string kase = pos == 0 ? fmt("expect_%s(%s, kv) with sa=%d sb=%d sc=%d sp=%d sq=%d kv=%d; (%s) = %lld", REL_NAME[r], *sh.text, sa, sb, sc, sp, sq, kv, *sh.text, v)
+                                         : fmt("expect_%s(kv, %s) with sa=%d sb=%d sc=%d sp=%d sq=%d kv=%d; (%s) = %lld", REL_NAME[r], *sh.text, sa, sb, sc, sp, sq, kv, *sh.text, v);
+                  if (n == 0) C->crumb_s(kase);
+                  // first directly, then in the rotating context (same operands, so the two outcomes are comparable)
+                  new_cell();
+                  for (Context cx : {CX_DIRECT, CTX_SCHED[(n++) % 8]}) {
+                    if (cx == CX_DIRECT && !cell_direct.empty()) break;  // rotation landed on "direct": done already
+                    Outcome o = in_context(cx, [&]() { return sh.call(r, pos, kv, sa, sb, sc, sp, sq); });
+                    judge(cx, string("expect_") + REL_NAME[r], fmt("operand-shape:%s:%s", sh.name, posname), t, o, kase, pos == 0 ? *sh.text : "kv", pos == 0 ? "kv" : *sh.text, nullptr);
+                  }
+                  (t ? holds : fails)++;
+                }
+              }
+        }
+        if (holds) C->cls(fmt("shape:%s:%s:holds", sh.name, posname));
+        if (fails) C->cls(fmt("shape:%s:%s:fails", sh.name, posname));
+        C->cls(fmt("shape-rel:%s:%s", REL_NAME[r], posname));
+      }
 }
 
 // --------------------------------------------------------------------------------------------------------
@@ -307,38 +560,45 @@ static void raises_row(int e) {
     string bn = beh_name(b);
     string kase = fmt("expect_raises(%s, fn) where fn %s", EXC_NAME[e], bn.c_str());
     C->crumb_s(kase);
+    new_cell();
+    const string et = fmt("%s:%s", EXC_NAME[e], bn.c_str());
     for (int rep = 0; rep < REPS; rep++) {
+      // all 3 call flavours x 5 contexts are met within 24 repetitions
       int flavour = rep % 3;
-      Outcome o;
-      if (flavour == 0) {
-        // plain capturing lambda, as the repository's tests write it
-        try { o.site_line = __LINE__; expect_raises(E, [&]() { behave(b, 0); }); } CATCH_INTO(o, false)
-      } else if (flavour == 1) {
-        // std::function holding state on the heap, exception thrown three frames down
-        string state(64 + rep % 7, 'x');
-        std::function<void()> fn = [state, b]() { behave(b, state.size() > 0 ? 3 : 0); };
-        try { o.site_line = __LINE__; expect_raises(E, fn); } CATCH_INTO(o, false)
-      } else {
-        // by-value capture only (fits std::function's small buffer)
-        try { o.site_line = __LINE__; expect_raises(E, [b]() { behave(b, 1); }); } CATCH_INTO(o, false)
-      }
+      Context cx = CTX_SCHED[(rep / 3) % 8];
+      Outcome o = in_context(cx, [&]() -> Outcome {
+        Outcome o;
+        if (flavour == 0) {
+          // plain capturing lambda, as the repository's tests write it
+          try { o.site_line = __LINE__; expect_raises(E, [&]() { behave(b, 0); }); } CATCH_INTO(o, false)
+        } else if (flavour == 1) {
+          // std::function holding state on the heap, exception thrown three frames down
+          string state(64 + rep % 7, 'x');
+          std::function<void()> fn = [state, b]() { behave(b, state.size() > 0 ? 3 : 0); };
+          try { o.site_line = __LINE__; expect_raises(E, fn); } CATCH_INTO(o, false)
+        } else {
+          // by-value capture only (fits std::function's small buffer)
+          try { o.site_line = __LINE__; expect_raises(E, [b]() { behave(b, 1); }); } CATCH_INTO(o, false)
+        }
+        return o;
+      });
       C->evaluations++;
-      string k2 = kase + fmt(" (call flavour %d)", flavour);
+      string k2 = kase + fmt(" (call flavour %d)", flavour) + (cx == CX_DIRECT ? string() : string(" [called ") + CTX_NAME[cx] + "]");
+      compare_with_direct(cx, o, k2, false);
       if (o.threw_other) {
-        C->violation(fmt("expect_raises:%s:%s:wrong-failure-type", EXC_NAME[e], bn.c_str()),
-            "expect_raises let something other than expectation_failed escape: " + o.other, k2);
+        C->violation(vkey(cx, "expect_raises", et, "wrong-failure-type"), "expect_raises let something other than expectation_failed escape: " + o.other, k2);
       } else if (should_pass && o.threw_ef) {
-        C->violation(fmt("expect_raises:%s:%s:rejected", EXC_NAME[e], bn.c_str()),
-            "fn threw the expected type (or a type derived from it) but expect_raises failed: " + o.what, k2);
+        C->violation(vkey(cx, "expect_raises", et, "rejected"), "fn threw the expected type (or a type derived from it) but expect_raises failed: " + o.what, k2);
       } else if (!should_pass && !o.threw_ef) {
-        C->violation(fmt("expect_raises:%s:%s:accepted", EXC_NAME[e], bn.c_str()),
+        C->violation(vkey(cx, "expect_raises", et, "accepted"),
             b == B_RETURNS ? "fn returned normally but expect_raises succeeded" : "fn threw a type that is not derived from the expected one but expect_raises succeeded", k2);
       } else if (o.threw_ef && b != B_THROW_FIRST + (int)X_EXPFAIL) {
         // the failure is the helper's own (fn did not throw an expectation_failed): it names the call site
         if (o.file != __FILE__ || o.line != o.site_line)
-          C->violation("expect_raises:site", fmt("failure carries %s:%" PRIu64 ", call site is %s:%" PRIu64, o.file.c_str(), o.line, __FILE__, o.site_line), k2);
-        if (o.what.empty()) C->violation("expect_raises:site", "failure has an empty what()", k2);
+          C->violation(vkey(cx, "expect_raises", "", "site"), fmt("failure carries %s:%" PRIu64 ", call site is %s:%" PRIu64, o.file.c_str(), o.line, __FILE__, o.site_line), k2);
+        if (o.what.empty()) C->violation(vkey(cx, "expect_raises", "", "site"), "failure has an empty what()", k2);
       }
+      C->cls(fmt("ctx:%s:expect_raises:%s", CTX_NAME[cx], should_pass ? "must-pass" : "must-fail"));
     }
     C->cls(fmt("raises:%s:%s:%s", EXC_NAME[e], bn.c_str(), should_pass ? "must-pass" : "must-fail"));
   }
@@ -372,11 +632,14 @@ int main(int argc, char** argv) {
   if (!raises_selftest()) return 2;
   string only = c.arg("only");
   if (only.empty() || only == "relations") relations_suite();
+  if (only.empty() || only == "shapes") shapes_suite();
   if (only.empty() || only == "raises") raises_suite();
   c.count("cells_total", c.shard == 0 ? cell_idx : 0);
   c.count("reps_per_cell", c.shard == 0 ? (uint64_t)REPS : 0);
   c.sample("expect_ge(INT_MIN, INT_MAX) must throw expectation_failed carrying c19.cc:<line of the call> and a message naming both operands");
   c.sample("expect_ne(NaN, NaN) must pass; expect_le(NaN, 1.0) must fail; expect_eq(-0.0, 0.0) must pass; expect_lt(\"a\", \"a\\0b\") must pass");
+  c.sample("expect_eq(kv, sc ? sa : sb) with sa=3 sb=5 sc=1 kv=2 must fail: the second operand means (sc ? sa : sb) = 3, not ((kv) == sc) ? sa : sb");
+  c.sample("expect_lt(1, 2) called from a destructor while an unrelated exception unwinds (failure caught inside the destructor) must behave as when called directly");
   c.sample("expect_raises(std::logic_error, []{}) must fail (nothing raised) although expectation_failed is-a logic_error");
   c.sample("expect_raises(std::runtime_error, fn throwing user type derived from runtime_error) must pass; fn throwing int must fail with expectation_failed");
   return c.finish();
